@@ -150,49 +150,49 @@ spec fn can_output(a: KanataAction, slot: OsCode, k: OsCode) -> bool
 //@@ sub R10 1 `for case in cases.iter()` => `for case in it: cases.iter()`
 //@@ sub R10 1 `for ac in cacs.iter()` => `for ac in ito: cacs.iter()`
 //@@ sub R10 1 `for k in keys.iter()` => `for k in iti: keys.iter()`
-//@@ loop 1
+//@@ loop-at `Action::MultipleKeyCodes(kcs) =>`
                 invariant
                     grows(*old(outputs), *outputs),
                     *action matches Action::MultipleKeyCodes(a0) && a0@ == kcs@,
                     it.seq().len() == kcs@.len(),
                     forall|i: int| 0 <= i < kcs@.len() ==> *(#[trigger] it.seq()[i]) == kcs@[i],
                     forall|j: int| 0 <= j < it.index@ ==> outputs.has(osc_slot, osc_of(#[trigger] kcs@[j])),
-//@@ loop 2
+//@@ loop-at `Action::MultipleActions(actions) =>`
                 invariant
                     grows(*old(outputs), *outputs),
                     *action matches Action::MultipleActions(a0) && a0@ == actions@,
                     it.seq().len() == actions@.len(),
                     forall|i: int| 0 <= i < actions@.len() ==> *(#[trigger] it.seq()[i]) == actions@[i],
                     forall|j: int, k: OsCode| 0 <= j < it.index@ && #[trigger] can_output(actions@[j], osc_slot, k) ==> outputs.has(osc_slot, k),
-//@@ loop 3
+//@@ loop-at `Action::TapDance(TapDance { actions, .. }) =>`
                 invariant
                     grows(*old(outputs), *outputs),
                     *action matches Action::TapDance(t0) && t0.actions@ == actions@,
                     it.seq().len() == actions@.len(),
                     forall|i: int| 0 <= i < actions@.len() ==> *(#[trigger] it.seq()[i]) == actions@[i],
                     forall|j: int, k: OsCode| 0 <= j < it.index@ && #[trigger] can_output(*actions@[j], osc_slot, k) ==> outputs.has(osc_slot, k),
-//@@ loop 4
+//@@ loop-at `Action::Chords(ChordsGroup { chords, .. }) =>`
                 invariant
                     grows(*old(outputs), *outputs),
                     *action matches Action::Chords(c0) && c0.chords@ == chords@,
                     it.seq().len() == chords@.len(),
                     forall|i: int| 0 <= i < chords@.len() ==> *(#[trigger] it.seq()[i]) == chords@[i],
                     forall|j: int, k: OsCode| 0 <= j < it.index@ && #[trigger] can_output(*chords@[j].1, osc_slot, k) ==> outputs.has(osc_slot, k),
-//@@ loop 5
+//@@ loop-at `Action::Switch(Switch { cases }) =>`
                 invariant
                     grows(*old(outputs), *outputs),
                     *action matches Action::Switch(s0) && s0.cases@ == cases@,
                     it.seq().len() == cases@.len(),
                     forall|i: int| 0 <= i < cases@.len() ==> *(#[trigger] it.seq()[i]) == cases@[i],
                     forall|j: int, k: OsCode| 0 <= j < it.index@ && #[trigger] can_output(*cases@[j].1, osc_slot, k) ==> outputs.has(osc_slot, k),
-//@@ loop 6
+//@@ loop-at `Action::Custom(cacs) =>`
                 invariant
                     grows(*old(outputs), *outputs),
                     *action matches Action::Custom(c0) && c0@ == cacs@,
                     ito.seq().len() == cacs@.len(),
                     forall|i: int| 0 <= i < cacs@.len() ==> *(#[trigger] ito.seq()[i]) == cacs@[i],
                     forall|j: int, k: OsCode| 0 <= j < ito.index@ && #[trigger] custom_out(*cacs@[j], k) ==> outputs.has(osc_slot, k),
-//@@ loop 7
+//@@ loop-at `CustomAction::Unmodded { keys, .. } | CustomAction::Unshifted { keys } =>`
                             invariant
                                 grows(*old(outputs), *outputs),
                                 iti.seq().len() == keys@.len(),
